@@ -16,7 +16,7 @@ import (
 func init() {
 	register(&Property{
 		ID:       "C07",
-		Patterns: []string{".", "./edge", "./alert", "./services/sideload"},
+		Patterns: []string{".", "./edge", "./alert", "./services/sideload", "./services/alert"},
 		Run:      runC07,
 		Explanation: "Graceful stop decided as structure (necessary conditions of 'drain, then terminate'): a node's goroutine closes (never aborts) its child edges on every exit, aborts its parent edges whenever it failed (any error, so that upstream producers blocked on a full edge are released) and reports exactly once; an edge's Close leaves the backlog readable and only Abort interrupts; " +
 			"ExecutingTask.stop stops and waits for every node in pipeline order and then for the task's helpers; the task master detaches a stream task by closing (not aborting) its fork edge before stopping it and drains forks before closing; " +
@@ -33,6 +33,7 @@ func runC07(c *core.Ctx) {
 	c.Rule("C07.edge", "A3: channelEdge.Close closes the messages channel only (the backlog stays readable; aborting is closed by Abort alone); Emit and Collect select on messages and aborting with no default; Close and Abort change state under e.mu")
 	c.Rule("C07.stop", "A2: ExecutingTask.stop: every node is stopped and waited for (walk callbacks that never return an error; stop before Wait), then et.wg.Wait(); walk visits every node of et.nodes in order")
 	c.Rule("C07.forklock", "A5 (must-hold lock set over go/cfg): every use of TaskMaster.forks/forkStats/taskToForkKeys, every method call on a value read out of forks (the fork edges: Collect in forkPoint, Close in delFork) and every call of a helper that needs the lock happens with tm.mu held on all paths reaching it; unexported methods without lock operations are helpers whose call sites carry the obligation; exported methods and function literals start without the lock")
+	c.Rule("C07.drainlock", "A5 (may-hold lock set over go/cfg + call graph with interface resolution inside alert and services/alert): no alert Service method calls, while Service.mu may be held, anything that reaches a WaitGroup.Wait for handler goroutines (Topics.DeleteTopic/Close/DeregisterHandler/ReplaceHandler, a handler's Close), as long as some handler's Handle/run reaches Service.Collect and Service.Collect takes Service.mu")
 	c.Rule("C07.tm", "A2/A6: stopTask removes the task from tm.tasks and detaches it (delFork / delete batches) before et.stop(); delFork closes the fork edge with Close, never Abort; Close drains (Drain) before stopping tasks; StopTask/DeleteTask/StopTasks/Close hold tm.mu around stopTask")
 	c.Rule("C07.stopf", "A6 effect disjointness: for every node type that assigns node.stopF and whose run path reads an input edge, no object torn down by the stop function (Abort/Close/Stop/Kill method or close() on a field of the node) is used by the node's consuming path (run function, receiver callbacks, group receivers, transitively in the package); reviewed exceptions are verified structurally")
 	c.Rule("C07.sink", "A1/A2: InfluxDBOutNode: the write buffer is flushed and then aborted after the consumer returned (deferred after start() or placed after Consume), flush before abort; writeBuffer.run answers a flush request with writeAll and then the flushed signal; writeAll attempts every pending batch (no early exit) and forgets it; enqueue blocks on the queue unless the buffer is stopping (no default arm)")
@@ -54,6 +55,11 @@ func runC07(c *core.Ctx) {
 	c07StopF(c, root)
 	c07Sink(c, root)
 	c07Tickers(c, root)
+	if svc := c.P.Pkg("services/alert"); svc != nil {
+		c07DrainLock(c, alertPkg, svc)
+	} else {
+		c.Undecided("C07.drainlock", "anchor:services/alert", token.NoPos, "package not loaded")
+	}
 	c09CloseAs(c, alertPkg, "C07.handlers")
 	c09BufferAs(c, alertPkg, "C07.handlers")
 	if fn := c.Need("C07.handlers", "alert", "bufHandler", "Close"); fn != nil {
